@@ -478,6 +478,14 @@ func runC11(c *mc.Ctx) {
 			}
 		}
 	}
+	if c.Quick() { // the smallest block of height 18 (work split into equal parts leaves a remainder: 131073 = 8*16384 + 1)
+		n := 131073
+		for _, k := range []int{5, n - 1} {
+			b := bytes.Repeat([]byte{'0'}, n)
+			b[k] = '1'
+			cases = append(cases, c11Case{N: n, Subset: string(b)})
+		}
+	}
 	c.Space("(n, subset) pairs", int64(len(cases)))
 	c.ParFor(int64(len(cases)), func(w *mc.W, i int64) {
 		w.State()
